@@ -1306,6 +1306,7 @@ func (e *Exec) scenarioPassedThrough(c *FuncContract, callee *ssa.Function, args
 // precreateRets creates the <name>_retK ghosts for every call of `name` in fn, so
 // that they exist (zero-valued) on paths where no such call has happened yet.
 func (e *Exec) precreateRets(st *State, fn *ssa.Function, name string) {
+	defer e.precreateRetsBySig(st, fn, name)
 	for _, b := range fn.Blocks {
 		for _, ins := range b.Instrs {
 			c, ok := ins.(*ssa.Call)
@@ -1343,6 +1344,61 @@ func (e *Exec) precreateRets(st *State, fn *ssa.Function, name string) {
 					e.ghostGet(st, g, rt, e.sc.zero(rt))
 				}
 			}
+		}
+	}
+}
+
+// precreateRetsBySig: the counted callee is not called by fn at all (e.g. after a change): the
+// result ghosts still exist (zero values, count 0), typed from the declaration, so that the
+// clauses mentioning them fail as obligations instead of being unevaluable.
+func (e *Exec) precreateRetsBySig(st *State, fn *ssa.Function, name string) {
+	g0 := fmt.Sprintf("%s_ret0", strings.ReplaceAll(name, ".", "_"))
+	if _, have := e.ghostTypes[g0]; have {
+		return
+	}
+	pkgPath, _ := e.eng.fnKey(fn)
+	var pkg *types.Package
+	for _, sp := range e.eng.ssaPkgs {
+		if sp != nil && sp.Pkg.Path() == pkgPath {
+			pkg = sp.Pkg
+		}
+	}
+	if pkg == nil {
+		return
+	}
+	var sig *types.Signature
+	if i := strings.IndexByte(name, '.'); i >= 0 {
+		if tn, ok := pkg.Scope().Lookup(name[:i]).(*types.TypeName); ok {
+			obj, _, _ := types.LookupFieldOrMethod(tn.Type(), true, pkg, name[i+1:])
+			if f, ok := obj.(*types.Func); ok {
+				sig = f.Type().(*types.Signature)
+			}
+		}
+	} else {
+		if f, ok := pkg.Scope().Lookup(name).(*types.Func); ok {
+			sig = f.Type().(*types.Signature)
+		} else {
+			for _, n := range pkg.Scope().Names() {
+				tn, ok := pkg.Scope().Lookup(n).(*types.TypeName)
+				if !ok {
+					continue
+				}
+				obj, _, _ := types.LookupFieldOrMethod(tn.Type(), true, pkg, name)
+				if f, ok := obj.(*types.Func); ok {
+					sig = f.Type().(*types.Signature)
+					break
+				}
+			}
+		}
+	}
+	if sig == nil {
+		return
+	}
+	for i := 0; i < sig.Results().Len(); i++ {
+		g := fmt.Sprintf("%s_ret%d", strings.ReplaceAll(name, ".", "_"), i)
+		if _, have := e.ghostTypes[g]; !have {
+			rt := sig.Results().At(i).Type()
+			e.ghostGet(st, g, rt, e.sc.zero(rt))
 		}
 	}
 }
